@@ -87,13 +87,17 @@ Theorem c01_setrange_payload :
   nth_error (setrange_bytes b off v) (Z.to_nat (off + i)) = nth_error v (Z.to_nat i).
 Proof. exact setrange_payload. Qed.
 
-(** RENAME: overwrite + TTL carry, source gone, everything else untouched *)
+(** RENAME: overwrite + TTL carry, source gone, everything else untouched - for the
+    dataset and for the deadline index, which follows the value (10c8230) *)
 Theorem c01_rename_spec :
   forall d o n e k, get_entry d o = Some e ->
   let d' := snd (eng_rename d o n) in
   get_entry d' n = Some e /\
   (beq o n = false -> get_entry d' o = None) /\
-  (beq k o = false -> beq k n = false -> get_entry d' k = get_entry d k).
+  (beq k o = false -> beq k n = false -> get_entry d' k = get_entry d k) /\
+  index_of d' n = e_exp e /\
+  (beq o n = false -> index_of d' o = None) /\
+  (beq k o = false -> beq k n = false -> index_of d' k = index_of d k).
 Proof. exact rename_spec. Qed.
 
 (** SET NX / XX *)
